@@ -17,7 +17,7 @@ func TestMakeReplays(t *testing.T) {
 		t.Skip("maintenance helper")
 	}
 	write := func(prop, kind, name, msg string, c any) {
-		raw, err := json.Marshal(c)
+		raw, err := lib.EncodeCase(c)
 		if err != nil {
 			t.Fatal(err)
 		}
